@@ -523,6 +523,20 @@ C14_TARGET(ts_ops, 3,
     case 1:
     {
       unsigned cnt = 1 + rd.below(3);
+      if (cnt == 3 && model.size() >= 30)
+      {
+        // a list near the largest header the limits allow (32 x (256 + '=' + 256) + 31 commas = 16447 bytes):
+        // EVERY member is of (almost) maximal length; keys stay distinct through the embedded index
+        for (size_t j = 0; j < model.size(); ++j)
+        {
+          std::string k2 = "k" + std::to_string(j) + "_";
+          k2 += std::string(256 - (j % 2) - k2.size(), static_cast<char>('a' + j % 26));
+          model[j].first  = k2;
+          model[j].second = std::string(256 - (j % 3 == 0 ? 1 : 0), static_cast<char>('A' + j % 26));
+        }
+        c.tag("start-all-members-near-max-length");
+        break;
+      }
       for (unsigned j = 0; j < cnt; ++j)
       {
         size_t at = rd.below(static_cast<uint32_t>(model.size()));
